@@ -506,7 +506,8 @@ func (vfs *MemFS) link(oldname, newname string) (retry bool, err error) {
 	}
 
 	nParent, nChild, nPI, nerr := vfs.searchNode(newname, slmLstat)
-	if nerr != vfs.err.FileExists && !vfs.isNotExist(nerr) || vfs.isNotExist(nerr) && !nPI.IsLast() {
+	if nerr != vfs.err.FileExists && !vfs.isNotExist(nerr) || vfs.isNotExist(nerr) && !nPI.IsLast() || nParent == nil {
+		// nParent is nil when the volume of the path does not exist.
 		return false, nerr
 	}
 
@@ -675,7 +676,8 @@ func (vfs *MemFS) mkdir(name string, perm fs.FileMode) (retry bool, err error) {
 
 	// Mkdir does not follow a symbolic link given as last element : the name exists.
 	parent, _, pi, err := vfs.searchNode(name, slmLstat)
-	if !vfs.isNotExist(err) || !pi.IsLast() {
+	if !vfs.isNotExist(err) || !pi.IsLast() || parent == nil {
+		// parent is nil when the volume of the path does not exist.
 		return false, err
 	}
 
@@ -755,6 +757,11 @@ func (vfs *MemFS) mkdirAll(path string, perm fs.FileMode) (retry bool, err error
 	}
 
 	if !vfs.isNotExist(err) {
+		return false, &fs.PathError{Op: op, Path: path, Err: err}
+	}
+
+	if parent == nil {
+		// the volume of the path does not exist : there is no directory to create anything in.
 		return false, &fs.PathError{Op: op, Path: path, Err: err}
 	}
 
@@ -870,7 +877,8 @@ func (vfs *MemFS) openFile(name string, flag int, perm fs.FileMode) (file avfs.F
 	seq := vfs.renameSeqNow()
 
 	parent, child, pi, err := vfs.searchNode(name, mode)
-	if err != vfs.err.FileExists && !vfs.isNotExist(err) || !pi.IsLast() {
+	if err != vfs.err.FileExists && !vfs.isNotExist(err) || !pi.IsLast() || parent == nil {
+		// parent is nil when the volume of the path does not exist.
 		return (*MemFile)(nil), false, &fs.PathError{Op: op, Path: name, Err: err}
 	}
 
@@ -1259,7 +1267,8 @@ func (vfs *MemFS) rename(oldpath, newpath string) (retry bool, err error) {
 	}
 
 	nParent, nChild, nPI, nErr := vfs.searchNode(newpath, slmLstat)
-	if nErr != vfs.err.FileExists && !vfs.isNotExist(nErr) || vfs.isNotExist(nErr) && !nPI.IsLast() {
+	if nErr != vfs.err.FileExists && !vfs.isNotExist(nErr) || vfs.isNotExist(nErr) && !nPI.IsLast() || nParent == nil {
+		// nParent is nil when the volume of the path does not exist.
 		return false, nErr
 	}
 
@@ -1484,7 +1493,8 @@ func (vfs *MemFS) symlink(oldname, newname string) (retry bool, err error) {
 	seq := vfs.renameSeqNow()
 
 	parent, _, pi, nerr := vfs.searchNode(newname, slmLstat)
-	if !vfs.isNotExist(nerr) || !pi.IsLast() {
+	if !vfs.isNotExist(nerr) || !pi.IsLast() || parent == nil {
+		// parent is nil when the volume of the path does not exist.
 		return false, nerr
 	}
 
